@@ -1134,7 +1134,7 @@ fn other_task(rng: &mut Rng, fl: &mut Rng, world: usize, c03: bool, rec_bias: u6
     Task { world, stages: st }
 }
 
-pub fn generate(prop: &str, _tier: Tier, seed: u64, run: u64) -> Sc {
+pub fn generate(prop: &str, tier: Tier, seed: u64, run: u64) -> Sc {
     let rng = Rng::new(mix(seed, &[prop, "memo"], run));
     let mut knobs = rng.split("knobs");
     let mut wl = rng.split("workload");
@@ -1148,7 +1148,8 @@ pub fn generate(prop: &str, _tier: Tier, seed: u64, run: u64) -> Sc {
     };
     let stacks_kib: Vec<usize> = (0..nworlds).map(|_| *knobs.pick(&[256usize, 512, 1024, 8192])).collect();
     let rec_bias = *knobs.pick(&[20u64, 50, 80]);
-    let ntasks = knobs.range(2, 5) as usize;
+    // thorough: longer histories (more tasks sharing the threads)
+    let ntasks = knobs.range(2, if tier == Tier::Thorough { 9 } else { 5 }) as usize;
     let mut tasks = Vec::new();
     for i in 0..ntasks {
         let world = if nworlds == 1 { 0 } else { knobs.usize(nworlds) };
